@@ -113,7 +113,7 @@ def build_operands(E, kinds, s):
     ops, cores = [], []
 
     def mk(name, N_, R_, M_=None):
-        x, c = tt_input(E, name, N_, R_, s.get('dtype', 'float64'), M_)
+        x, c = tt_input(E, name, N_, R_, s.get('dtype', 'float64'), M_, via=s.get('via'))
         ops.append(x)
         cores.append(c)
 
